@@ -2,9 +2,10 @@
 from __future__ import annotations
 
 import ast
+import re
 
 from sa import flow
-from sa.model import AnalysisError, dotted, unparse
+from sa.model import AnalysisError, dotted, names_in, unparse
 from sa.rules import LEVEL_TEXT, rule
 from sa.rules.util import closure_functions, is_self_attr, iter_body_nodes, one_local, pfind, pmatch, qual
 
@@ -555,3 +556,83 @@ def r02c(ctx):
         "co-aligned iff at most one distinct ancestor" if good else f"verdict is `{vd}`: more than one distinct ancestor may not count as co-aligned",
     )
     ctx.floor("are_co_aligned obligations", len(ext) + len(toks) + 2, 4)
+
+
+# ---------------------------------------------------------------------------------------------
+# R02d
+# ---------------------------------------------------------------------------------------------
+
+_ALIGNING_CALLS = ("maybe_align_partitions(", "RepartitionDivisions(", "RearrangeByColumn(", "Repartition(")
+
+
+@rule(
+    "R02d",
+    ["C02", "C13", "C06"],
+    """THE ALIGNMENT STEP IS ONLY SKIPPED FOR INPUTS THAT ARE PARTITIONED ALIKE - in every aligning lowering: each `_lower` of the
+    *Align family (MaybeAlignPartitions, OpAlignPartitions and heirs with their own _lower) that can return the plain operation on the
+    UN-aligned inputs does so under a disjunction whose every disjunct is one of: a single frame-like input; equal AND known divisions
+    (equal unknown divisions are tuples of None - they say nothing); a single partition on all sides. A bare `len(self.divisions) == 2`
+    (one combined partition, but an input may have (0, 1, 1)) or equality without `known_divisions` pairs partitions by position.
+    Each such lowering also needs the index-shuffle branch for unknown divisions. The divisions the node reports must be those of the
+    inputs when nothing is aligned (calc_divisions_for_align: identical inputs are returned as they are, not de-duplicated).""",
+)
+def r02d(ctx):
+    model = ctx.model
+    base = model.cls("MaybeAlignPartitions")
+    n = 0
+    for c in model.subclasses(base):
+        mem = c.members.get("_lower")
+        if mem is None or mem.kind == "attr":
+            continue
+        fn = mem.node
+        defs = flow.Defs(fn)
+        shortcut = []
+        for p in flow.returns(fn):
+            v = p.stmt.value
+            if v is None:
+                continue
+            chain_text = ast.unparse(v) + " " + " ".join(ast.unparse(x) for nm in names_in(v) for x in [d.value for d in defs.reaching(nm, p.stmt) if d.value is not None])
+            if not any(k in chain_text for k in _ALIGNING_CALLS):
+                shortcut.append(p)
+        text = ast.unparse(fn)
+        aligns = any(k in text for k in _ALIGNING_CALLS)
+        if not shortcut:
+            if aligns:
+                n += 1
+                ctx.ok(f"{c.qual}._lower:always-aligns", c.module.loc(fn), "every return goes through an aligning call")
+            continue
+        for p in shortcut:
+            n += 1
+            cid = f"{c.qual}._lower:shortcut"
+            g = next((g for g, pol in reversed(p.guards) if pol), None)
+            disj = list(g.values) if isinstance(g, ast.BoolOp) and isinstance(g.op, ast.Or) else ([g] if g is not None else [])
+            bad = []
+            for d in disj:
+                t = ast.unparse(d)
+                single_input = re.fullmatch(r"len\(\w+\) == 1", t) is not None
+                equal_known = ".divisions ==" in t and "known_divisions" in t
+                one_partition = "npartitions == 1" in t
+                if not (single_input or equal_known or one_partition):
+                    bad.append(t)
+            if not disj:
+                ctx.bad(cid, c.module.loc(p.stmt), f"`{unparse(p.stmt)}` builds the plain operation on un-aligned inputs unconditionally")
+            elif bad:
+                ctx.bad(cid, c.module.loc(p.stmt), f"the alignment step is skipped under `{bad[0][:120]}`, which does not establish that the inputs are partitioned alike (equal unknown divisions are tuples of None; two combined division entries do not bound the inputs' partition counts): partitions are then paired by position - a + b on unrelated collections / da.sub(ds, axis=0) with (0, 1, 1) vs (0, 1) differ from pandas")
+            else:
+                ctx.ok(cid, c.module.loc(p.stmt), "alignment is skipped only for a single input, equal known divisions or single partitions")
+        shuffle = "RearrangeByColumn(" in text
+        cid = f"{c.qual}._lower:unknown-divisions-shuffle"
+        (ctx.ok if shuffle else ctx.bad)(cid, c.module.loc(fn), "unknown divisions are aligned by an index shuffle" if shuffle else f"{c.qual}._lower has no index-shuffle branch: inputs with unknown divisions are repartitioned on divisions of None (TypeError) or paired by position")
+    ctx.floor("aligning lowerings", n, 3)
+    # reported divisions when nothing is aligned
+    mod, fn = model.func("_expr", "calc_divisions_for_align")
+    dedup = [x for x in ast.walk(fn) if isinstance(x, ast.Call) and dotted(x.func) in ("unique", "set", "sorted")]
+    keeps = False
+    for p in flow.returns(fn):
+        if p.stmt.value is not None and any(pol and ".divisions ==" in ast.unparse(t) for t, pol in flow.facts(p)) and ".divisions" in ast.unparse(p.stmt.value):
+            keeps = True
+    cid = "_expr.calc_divisions_for_align:identical-inputs"
+    if dedup and not keeps:
+        ctx.bad(cid, mod.loc(fn), "the merged divisions are always de-duplicated, also when all inputs carry the SAME divisions with a repeated last entry (0, 2, 3, 4, 4): lowering leaves such inputs untouched (4 partitions) while the node advertises (0, 2, 3, 4) - partitions[-1] / tail() address the wrong partition")
+    else:
+        ctx.ok(cid, mod.loc(fn), "identical input divisions are reported unchanged")
